@@ -154,6 +154,30 @@ def rule_R3(ck):
         ck.violation("compiler::Compiler.compile_file", f"the per-file inclusion counter seen while the body is compiled is {ps[0].value!r}; it must be 1 on the first inclusion and 2 on the second", construct="times_file_compiled increment")
 
 
+def rule_paths(ck):
+    """resolve_relative_path: a relative path is joined to the directory of the including file AND normalised, so that the
+    per-file key used by '.once' (and by diagnostics) does not depend on how the path was spelled"""
+    repo = ck.repo
+    where = "devices::resolve_relative_path"
+    I = eager_interp(repo)
+    REL, BASE_ = sym.var("relative_path", "str"), sym.var("base_file_path", "str")
+    ps = I.explore(lambda: I.call(I.module_get("devices", "resolve_relative_path"), [REL, BASE_], {}))
+    vals = {repr(p.value) for p in ps if p.kind == "return"}
+    want_rel = sym.op("normpath", sym.op("join", sym.op("dirname", BASE_), REL))
+    ck.instance("resolve_relative_path", {"results": sorted(vals)}, fn=where)
+    if any(p.kind != "return" for p in ps):
+        ck.violation(where, f"resolve_relative_path raises: {[p.value for p in ps if p.kind != 'return']}", construct="resolve_relative_path raises")
+    if repr(want_rel) not in vals or not vals <= {repr(want_rel), repr(REL)}:
+        ck.violation(where, f"a relative path resolves to {sorted(vals)}; expected the normalised join with the including file's directory ({want_rel!r}) - or the path itself when absolute: without normalisation "
+                            "'lib.mac' and 'sub/../lib.mac' are different files for '.once'", construct="resolve_relative_path normalisation", expected=repr(want_rel), found=str(sorted(vals)))
+    # '.once' and compile_file key the counter by the same file name
+    fn = repo.func("compiler::Compiler.compile_file")
+    keys = [norm_text(n.slice) for n in ast.walk(fn) if isinstance(n, ast.Subscript) and "times_file_compiled" in norm_text(n.value)]
+    ck.instance("once-key", {"counter key in compile_file": keys}, fn="compiler::Compiler.compile_file")
+    if keys != ["file.filename"]:
+        ck.violation("compiler::Compiler.compile_file", f"the inclusion counter is keyed by {keys}, '.once' reads it by state['filename'] (= file.filename)", construct="once counter key")
+
+
 def rule_R4(ck):
     repo = ck.repo
     # who raises CompilerStopIteration
@@ -240,7 +264,9 @@ def run(ck):
     ck.run_rule("G4", "the parse tree is read-only during compilation", 5, treeimm.rule_G4)
     ck.run_rule("C16.R2", ".repeat: iteration addresses, shared body, state copy, concatenation", 4, rule_R2)
     ck.run_rule("C16.R3", ".once: threshold and counter increment before the body", 3, rule_R3)
+    ck.run_rule("C16.R3p", "included file identity: relative paths are joined and normalised", 2, rule_paths)
     ck.run_rule("C16.R4", ".end: single raiser, single handler, bytes so far, parser stop", 4, rule_R4)
     ck.run_rule("C16.R5", "insert_file returns the file's bytes unmodified", 1, rule_R5)
     ck.run_rule("C02.R2", "bytes/address accumulator pairing (linking = concatenation)", 5, c02.rule_R2)
     ck.run_rule("C02.R6", "address continuation across included and linked files", 4, c02.rule_R6)
+    ck.run_rule("C02.R7", "linking F1 F2 ... = concatenation at chained addresses", 3, c02.rule_R7)
